@@ -219,6 +219,12 @@ def check(pid, tier, seed, only=None):
     t0 = time.time()
     pm = load_prop(pid)
     obs = pm.obligations(tier, seed)
+    seen_ids, uniq = set(), []
+    for o in obs:
+        if o["oid"] not in seen_ids:
+            seen_ids.add(o["oid"])
+            uniq.append(o)
+    obs = uniq
     if only:
         obs = [o for o in obs if only in o["oid"]]
     for o in obs:
